@@ -793,10 +793,19 @@ def sl_eval(cx, stmts=None, env=None, keep_params=True):
             if isinstance(st, ast.Assign) and len(st.targets) == 1:
                 envs = [assign(e, st) for e in envs]
             elif isinstance(st, ast.AugAssign):
+                new = []
                 for e in envs:
-                    for y in ast.walk(st.target):
-                        if isinstance(y, ast.Name):
-                            e.pop(y.id, None)
+                    e = dict(e)
+                    t = st.target
+                    if isinstance(t, ast.Name) and t.id in e:
+                        v = _Subst(e).visit(canon(cx.fi, st.value, inline=False))
+                        e[t.id] = ast.BinOp(left=_copy.deepcopy(e[t.id]), op=st.op, right=v)
+                    else:
+                        for y in ast.walk(t):
+                            if isinstance(y, ast.Name):
+                                e.pop(y.id, None)
+                    new.append(e)
+                envs = new
             elif isinstance(st, ast.Return):
                 if st.value is not None:
                     for e in envs:
@@ -1605,3 +1614,222 @@ def tables_c20(run):
         run.holds(RULE, cc.f.key, 'form tests on the raw argument', '%d form tests applied to the argument itself' % n, f=cc.f)
     else:
         run.error('R16: SpatialVector.__init__: no form tests found')
+
+
+# =========================================================================== C18 unit twists
+def tables_c18(run):
+    # Revolute: w = unitvec(a); v = -cross(w, q) [+ pitch * w]; cls(v, w)
+    cx = Ctx(run, 'twist:Twist3.Revolute')
+    rets = sl_eval(cx)
+    nm = Normaliser(rename=cx.rename)
+    ws = [Normaliser().poly(parse_expr('cls(-cross(unitvec(P0), P1), unitvec(P0))')),
+          Normaliser().poly(parse_expr('cls(-cross(unitvec(P0), P1) + P2 * unitvec(P0), unitvec(P0))'))]
+    if not rets:
+        run.error('R16: Twist3.Revolute: no return')
+    for (r, e) in rets:
+        g = nm.poly(e)
+        (run.holds if g in ws else run.violation)(RULE, cx.f.key, 'revolute twist' + (' with pitch' if g == ws[1] else ''),
+                                                  'v = -w x q (+ pitch w), w = unitvec(a)' if g in ws else
+                                                  'Revolute builds %s; the definition is %s' % (g, ws[0]), f=cx.f, node=r)
+    cp = Ctx(run, 'twist:Twist3.Prismatic')
+    rets = sl_eval(cp)
+    w = Normaliser().poly(parse_expr('cls(unitvec(P0), r_[0, 0, 0])'))
+    for (r, e) in rets:
+        g = Normaliser(rename=cp.rename).poly(e)
+        (run.holds if g == w else run.violation)(RULE, cp.f.key, 'prismatic twist', 'v = unitvec(a), w = 0' if g == w else
+                                                 'Prismatic builds %s; the definition is %s' % (g, w), f=cp.f, node=r)
+    c2 = Ctx(run, 'twist:Twist2.Revolute')
+    rets = sl_eval(c2)
+    w = Normaliser().poly(parse_expr('cls((-cross(r_[0.0, 0.0, 1.0], r_[P0, 0.0]))[:2], 1)'))
+    for (r, e) in rets:
+        g = Normaliser(rename=c2.rename).poly(e)
+        (run.holds if g == w else run.violation)(RULE, c2.f.key, 'planar revolute twist', 'v = -(z x [q,0])[:2], w = 1' if g == w else
+                                                 'Twist2.Revolute builds %s; the definition is %s' % (g, w), f=c2.f, node=r)
+    c3 = Ctx(run, 'twist:Twist2.Prismatic')
+    for (r, e) in sl_eval(c3):
+        g = Normaliser(rename=c3.rename).poly(e)
+        w = Normaliser().poly(parse_expr('cls(unitvec(P0), 0)'))
+        (run.holds if g == w else run.violation)(RULE, c3.f.key, 'planar prismatic twist', 'v = unitvec(a), w = 0' if g == w else
+                                                 'Twist2.Prismatic builds %s' % g, f=c3.f, node=r)
+    for key, nm_, want in (
+            ('twist:Twist3.v', 'v slot', 'SELF.data[0][:3]'), ('twist:Twist3.w', 'w slot', 'SELF.data[0][3:6]'),
+            ('twist:Twist2.v', 'v slot', 'SELF.data[0][:2]'), ('twist:Twist2.w', 'w slot', 'SELF.data[0][2]'),
+            ('twist:Twist3.pitch', 'pitch', 'dot(SELF.w, SELF.v)'), ('twist:Twist3.theta', 'theta', 'norm(SELF.w)'),
+            ('twist:Twist3.pole', 'pole', 'cross(SELF.w, SELF.v) / SELF.theta()')):
+        check_expr_fn(run, key, nm_, want)
+    check_routes(run, [
+        ('twist:Twist3.se3', 'se(3) matrix form', ['skewa(self.S)', '[skewa(x.S) for x in self]'], 'return'),
+        ('twist:Twist2.se2', 'se(2) matrix form', ['skewa(self.S)', '[skewa(x.S) for x in self]'], 'return'),
+        ('twist:Twist3.SE3', 'SE3 of a twist is its exponential', ['SE3(self.exp())'], 'return'),
+        ('twist:Twist2.SE2', 'SE2 of a twist is its exponential', ['SE2(self.exp())'], 'return'),
+        ('twist:Twist3.Ad', 'adjoint through the exponential', ['self.SE3().Ad()'], 'return'),
+        ('pose3d:SE3.Twist3', 'twist of a pose is its logarithm', ['Twist3(self.log(twist=True))'], 'return'),
+        ('pose2d:SE2.Twist2', 'twist of a pose is its logarithm', ['Twist2(self.log(twist=True))'], 'return'),
+    ], rule=RULE)
+    # exp: trexp(S * theta) for scalar theta, per element for vector theta
+    for key, ex, cls in (('twist:Twist3.exp', 'trexp', 'SE3'), ('twist:Twist2.exp', 'trexp2', 'SE2')):
+        f = run.prog.func(key)
+        fi = FuncInfo.of(f)
+        pats = ['%s(%s(self.S * theta))' % (cls, ex), '%s([%s(self.S * t) for t in theta])' % (cls, ex),
+                '%s([%s(S * t) for S, t in zip(self.data, theta)])' % (cls, ex)]
+        bad = []
+        n = 0
+        for r in own_returns(f.node):
+            if r.value is None:
+                continue
+            n += 1
+            e = canon(fi, r.value, inline=False)
+            if not any(matches(p, e) is not None for p in pats):
+                bad.append(r)
+        if bad:
+            run.violation(RULE, key, 'exp form', 'return %s is not %s(%s(S * theta))' % (src(bad[0].value, 60), cls, ex), f=f, node=bad[0])
+        elif n:
+            run.holds(RULE, key, 'exp form', 'exp(theta) = %s(S * theta), element-wise for vector theta' % ex, f=f)
+    # isprismatic = iszerovec(w)
+    f = run.prog.func('twist:SMTwist.isprismatic')
+    fi = FuncInfo.of(f)
+    rs = [canon(fi, r.value, inline=False) for r in own_returns(f.node) if r.value is not None]
+    ok = any(matches('iszerovec(self.w)', e) is not None for e in rs)
+    (run.holds if ok else run.violation)(RULE, f.key, 'prismatic test', 'prismatic iff the rotational part is zero' if ok else
+                                         'isprismatic is not iszerovec(self.w)', f=f)
+
+
+# =========================================================================== C05 extraction side
+def tables_c05(run):
+    # tr2eul: the singular branch is the general formula specialised at phi = 0 (sp = 0, cp = 1)
+    cx = Ctx(run, 'base/transforms3d:tr2eul')
+    f = cx.f
+    fi = cx.fi
+    top = None
+    for st in body_nodoc(f.node):
+        if isinstance(st, ast.If) and st.orelse and any(isinstance(n, ast.Subscript) and ast.unparse(n.value) == 'eul' for n in ast.walk(st)):
+            top = st
+    if top is None:
+        run.error('R16: tr2eul: singular/general if-else not found')
+    else:
+        def table(stmts, extra_env=None):
+            env = dict(extra_env or {})
+            out = {}
+            for st in stmts:
+                if isinstance(st, ast.If):
+                    # flip / no-flip arms both assign eul[0]; take the no-flip arm (else) for the comparison
+                    stmts2 = st.orelse or st.body
+                    out.update(table(stmts2, env))
+                    continue
+                if isinstance(st, ast.Assign) and len(st.targets) == 1:
+                    t = st.targets[0]
+                    v = _Subst(env).visit(canon(fi, st.value, inline=False))
+                    if isinstance(t, ast.Name):
+                        env[t.id] = v
+                    elif isinstance(t, ast.Subscript) and ast.unparse(t.value) == 'eul' and isinstance(t.slice, ast.Constant):
+                        out[t.slice.value] = v
+                        env['eul[%d]' % t.slice.value] = v
+            return out
+        sing = table(top.body)
+        gen = table(top.orelse)
+        nm = Normaliser()
+        for i in (1, 2):
+            if i not in sing or i not in gen:
+                run.error('R16: tr2eul: eul[%d] not assigned in both branches' % i)
+                continue
+            # specialise the general formula: sp -> 0, cp -> 1  (phi = 0 is what the singular branch stores in eul[0])
+            class Spec(ast.NodeTransformer):
+                def visit_Call(self2, n):
+                    self2.generic_visit(n)
+                    if isinstance(n.func, ast.Name) and n.func.id in ('sin', 'cos') and n.args and ast.unparse(n.args[0]) == 'eul[0]':
+                        return ast.Constant(value=0 if n.func.id == 'sin' else 1)
+                    return n
+            gs = Spec().visit(_copy.deepcopy(gen[i]))
+            a, b = nm.poly(sing[i]), nm.poly(gs)
+            if a == b:
+                run.holds(RULE, f.key, 'singular branch eul[%d]' % i, 'equals the general formula at phi = 0', f=f)
+            else:
+                run.violation(RULE, f.key, 'singular branch eul[%d]' % i, 'in the singular branch (phi chosen 0) eul[%d] is %s, but the general '
+                              'formula specialised at phi = 0 gives %s: the rebuilt rotation differs at the singular configuration' % (i, a, b), f=f)
+        z = sing.get(0)
+        (run.holds if z is not None and nm.poly(z) == Poly.const(0) else run.violation)(
+            RULE, f.key, 'singular branch eul[0]', 'phi = 0 is chosen' if z is not None and nm.poly(z) == Poly.const(0) else 'singular branch does not set phi = 0', f=f)
+    # flip threading in tr2eul: under flip the first angle uses negated arguments
+    okflip = False
+    for n in own_walk(f.node):
+        if isinstance(n, ast.If) and isinstance(n.test, ast.Name) and n.test.id == 'flip':
+            a = [canon(fi, s.value, inline=False) for s in n.body if isinstance(s, ast.Assign)]
+            b = [canon(fi, s.value, inline=False) for s in n.orelse if isinstance(s, ast.Assign)]
+            if a and b and matches('atan2(-R[1, 2], -R[0, 2])', a[0]) is not None and matches('atan2(R[1, 2], R[0, 2])', b[0]) is not None:
+                okflip = True
+    (run.holds if okflip else run.violation)(RULE, f.key, 'flip', 'flip selects atan2(-R12, -R02)' if okflip else 'flip does not select the second solution atan2(-R[1,2], -R[0,2])', f=f)
+    # T31 planar slots
+    cx2 = Ctx(run, 'base/transforms2d:tr2xyt')
+    rets = sl_eval(cx2)
+    if rets:
+        g = {str(Normaliser(rename=cx2.rename).poly(e)) for (r, e) in rets}
+        w1 = str(Normaliser().poly(parse_expr('r_[P0[0, 2], P0[1, 2], atan2(P0[1, 0], P0[0, 0])]')))
+        w2 = str(Normaliser().poly(parse_expr('r_[P0[0, 2], P0[1, 2], atan2(P0[1, 0], P0[0, 0]) * (180.0 / pi)]')))
+        ok = g <= {w1, w2} and w1 in g
+        (run.holds if ok else run.violation)(RULE, cx2.f.key, 'xyt slots', '[T[0,2], T[1,2], atan2(T[1,0], T[0,0])]' if ok else 'tr2xyt returns %s' % sorted(g), f=cx2.f)
+    # tr2angvec: (norm(v), unitvec(v)) of v = vex(trlog(R)), zero pair for the identity
+    ca = Ctx(run, 'base/transforms3d:tr2angvec')
+    vals = {}
+    for st in own_walk(ca.f.node):
+        if isinstance(st, ast.Assign) and isinstance(st.targets[0], ast.Name):
+            vals.setdefault(st.targets[0].id, []).append(canon(ca.fi, st.value, inline=False))
+    okv = any(matches('vex(trlog(R))', e) is not None for e in vals.get('v', []))
+    okn = any(matches('norm(v)', e) is not None for e in vals.get('theta', []))
+    oku = any(matches('unitvec(v)', e) is not None for e in vals.get('v', []))
+    okz = any(isinstance(e, ast.Constant) and e.value == 0 for e in vals.get('theta', []))
+    for nm_, ok, msg in (('rotation vector', okv, 'v = vex(trlog(R))'), ('angle', okn, 'theta = norm(v)'), ('axis', oku, 'axis = unitvec(v)'), ('zero rotation', okz, 'theta = 0 for the identity')):
+        (run.holds if ok else run.violation)(RULE, ca.f.key, nm_, msg if ok else msg + ' missing', f=ca.f)
+
+
+# =========================================================================== C14 normalisers
+def tables_c14(run):
+    check_expr_fn(run, 'base/quaternions:unit', 'unit quaternion', 'P0 / norm(P0)')
+    for key in ('base/vectors:unitvec',):
+        cx = Ctx(run, key)
+        rs = [(r, e) for (r, e) in sl_eval(cx) if not (isinstance(e, ast.Constant) and e.value is None)]
+        ok = len(rs) == 1 and Normaliser(rename=cx.rename).poly(rs[0][1]) == Normaliser().poly(parse_expr('P0 / norm(P0)'))
+        (run.holds if ok else run.violation)(RULE, key, 'v / |v|', 'divides by the norm of the same vector' if ok else 'unitvec is not v / norm(v)', f=cx.f)
+    cx = Ctx(run, 'base/vectors:unitvec_norm')
+    rs = [(r, e) for (r, e) in sl_eval(cx) if not (isinstance(e, ast.Constant) and e.value is None)]
+    ok = len(rs) == 1 and Normaliser(rename=cx.rename).poly(rs[0][1]) == Normaliser().poly(parse_expr('(P0 / norm(P0), norm(P0))'))
+    (run.holds if ok else run.violation)(RULE, cx.f.key, '(v / |v|, |v|)', 'direction and norm of the same vector' if ok else 'unitvec_norm is not (v/norm(v), norm(v))', f=cx.f)
+    # unit twists: theta = norm(v) if the rotational part is zero else norm(w) / abs(w); S / theta
+    for key, nv, wsel, zf, nf in (('base/vectors:unittwist', 3, 'P0[3:6]', 'iszerovec', 'norm'), ('base/vectors:unittwist_norm', 3, 'P0[3:6]', 'iszerovec', 'norm'),
+                                  ('base/vectors:unittwist2', 2, 'P0[2]', 'iszero', 'abs'), ('base/vectors:unittwist2_norm', 2, 'P0[2]', 'iszero', 'abs')):
+        cx = Ctx(run, key)
+        f = cx.f
+        fi = cx.fi
+        sel = None
+        for st in own_walk(f.node):
+            if isinstance(st, ast.If) and st.orelse:
+                t = canon(fi, st.test)
+                if matches('%s(_W)' % zf, t) is not None or matches('%s(_W, *_X)' % zf, t) is not None:
+                    a = [canon(fi, s.value) for s in st.body if isinstance(s, ast.Assign)]
+                    b = [canon(fi, s.value) for s in st.orelse if isinstance(s, ast.Assign)]
+                    sel = (t, a, b)
+        S = f.params[0]
+        if sel is None:
+            run.error('R16: %s: selector if/else not found' % key)
+            continue
+        t, a, b = sel
+        nm = Normaliser(rename=cx.rename)
+        w_ok = nm.poly(t.args[0]) == Normaliser().poly(parse_expr(wsel))
+        a_ok = a and nm.poly(a[0]) == Normaliser().poly(parse_expr('norm(P0[0:%d])' % nv))
+        b_ok = b and nm.poly(b[0]) == Normaliser().poly(parse_expr('%s(%s)' % (nf, wsel)))
+        for nm_, ok, msg in (('selector', w_ok, 'tests the rotational part %s' % wsel), ('irrotational scale', a_ok, 'theta = norm(v) when the rotational part is zero'),
+                             ('rotational scale', b_ok, 'theta = %s(w) otherwise' % nf)):
+            (run.holds if ok else run.violation)(RULE, key, nm_, msg if ok else msg + ' -- NOT the case', f=f)
+        rets = [canon(fi, r.value, inline=False) for r in own_returns(f.node) if r.value is not None]
+        okr = any(matches('%s / th' % S, e) is not None or matches('(%s / th, th)' % S, e) is not None for e in rets)
+        (run.holds if okr else run.violation)(RULE, key, 'scaled twist', 'returns S / theta' if okr else 'does not return S / theta', f=f)
+    # angdiff: mod(x + pi, 2 pi) - pi with x = a or a - b
+    cx = Ctx(run, 'base/vectors:angdiff')
+    got = {str(Normaliser(rename=cx.rename).poly(e)) for (r, e) in sl_eval(cx)}
+    want = {str(Normaliser().poly(parse_expr('mod(P0 + pi, 2 * pi) - pi'))), str(Normaliser().poly(parse_expr('mod(P0 - P1 + pi, 2 * pi) - pi')))}
+    (run.holds if got == want else run.violation)(RULE, cx.f.key, 'angle wrapping', 'mod(x + pi, 2 pi) - pi for x = a and x = a - b' if got == want else
+                                                  'angdiff returns %s; the definition is %s' % (sorted(got), sorted(want)), f=cx.f)
+    check_routes(run, [
+        ('super_pose:SMPose.norm', '2D objects normalise with trnorm2', ['self.__class__([trnorm2(x) for x in self.data])'], 'any'),
+        ('super_pose:SMPose.norm', '3D objects normalise with trnorm', ['self.__class__([trnorm(x) for x in self.data])'], 'any'),
+        ('quaternion:Quaternion.unit', 'unit quaternion of every element', ['UnitQuaternion([unit(q._A) for q in self], norm=False)'], 'return'),
+    ], rule=RULE)
